@@ -2,30 +2,59 @@
 (* Implementation-shaped model of the library's lifecycle: which mode-      *)
 (* changing commands New, a frame, Suspend, Resume and Close write for a    *)
 (* given capability set and options (transcribed from New/sendQueries/      *)
-(* enableModes/disableModes/enterAltScreen/exitAltScreen/Suspend/Resume/    *)
-(* Close), applied to the Modes oracle's table.  TLC explores every         *)
-(* capability subset x option x start table x session of up to MaxSteps     *)
-(* lifecycle steps with shutdown at every point, checking that the table is *)
-(* restored whenever the session is suspended or closed and that Resume     *)
-(* re-establishes what start-up established.  Shutdown by a signal or by a  *)
-(* panic in the input goroutine runs the same Close and is covered by it.   *)
+(* applyQuirks/enableModes/disableModes/enterAltScreen/exitAltScreen/       *)
+(* Suspend/Resume/Close), applied to the Modes oracle's table.  TLC         *)
+(* explores every capability subset x option x environment option x start   *)
+(* table x session of up to MaxSteps lifecycle steps with shutdown at every *)
+(* point, checking that the table is restored whenever the session is       *)
+(* suspended or closed and that Resume re-establishes what start-up         *)
+(* established.                                                             *)
+(*                                                                          *)
+(* Shutdown by a signal or by a panic in the input goroutine runs the same  *)
+(* Close, but on ANOTHER goroutine than the application's: it can fall      *)
+(* inside a frame (the frame's first half is written: a hyperlink is open,  *)
+(* the pen is set, synchronized output is on) and inside a Suspend (marked  *)
+(* suspended, waiting for the terminal's reply, nothing restored yet).      *)
+(* SigClose is that Close.  The constants select the shape:                 *)
+(*   FrameExcl     a frame and the shutdown exclude one another (TRUE) /    *)
+(*                 the shutdown writes between the halves of a frame, what  *)
+(*                 the frame writes after the console is closed is lost;    *)
+(*   SerialSuspend a Close that finds a Suspend under way waits for it      *)
+(*                 (TRUE) / takes "marked suspended" for "restored" and     *)
+(*                 closes the console;                                      *)
+(*   QuirksFirst   the environment options edit the capabilities before     *)
+(*                 start-up enables the modes (TRUE) / after it: Suspend,   *)
+(*                 Resume and Close then act on other capabilities than     *)
+(*                 start-up did;                                            *)
+(*   KeepPreset    modes already set at start are left alone on exit.       *)
 EXTENDS Modes, FiniteSets, TLC
 
-CONSTANTS MaxSteps, KeepPreset   \* KeepPreset: the repaired code leaves pre-set 2027/2031 alone
+CONSTANTS MaxSteps, KeepPreset, FrameExcl, SerialSuspend, QuirksFirst,
+          Quirks,      \* environment options explored: subset of {"none", "wcwidth", "nozwj", "unicode"}
+          Opts         \* values of the two Disable* options explored: subset of BOOLEAN
 
 CapNames == {"sync", "ucore", "ctheme", "ibr", "kitty", "sixel", "osc176", "xw"}
 VARIABLES caps,      \* advertised = detected capabilities
           noMouse, noKitty,
+          quirk,     \* environment option in force
           preset,    \* gated modes already set at start
           m, m0, ready, phase, n, shapeUser
-vars == <<caps, noMouse, noKitty, preset, m, m0, ready, phase, n, shapeUser>>
+vars == <<caps, noMouse, noKitty, quirk, preset, m, m0, ready, phase, n, shapeUser>>
+cfgvars == <<caps, noMouse, noKitty, quirk, preset, m0, ready, shapeUser>>
 
+(* What the TERMINAL implements follows from what it advertises. *)
 Sup == (IF "sync" \in caps THEN {2026} ELSE {}) \cup (IF "ucore" \in caps THEN {2027} ELSE {})
        \cup (IF "ctheme" \in caps THEN {2031} ELSE {}) \cup (IF "ibr" \in caps THEN {2048} ELSE {})
        \cup (IF "sixel" \in caps THEN {8452} ELSE {})
 KK == "kitty" \in caps
 A176 == "osc176" \in caps
-UseKitty == KK /\ ~noKitty
+
+(* The capabilities the LIBRARY works with once the environment options are applied. *)
+Eff == CASE quirk = "wcwidth" -> caps \ {"ucore", "xw"}
+         [] quirk = "nozwj"   -> caps \ {"xw"}
+         [] quirk = "unicode" -> caps \cup {"ucore"}
+         [] OTHER             -> caps
+StartCaps == IF QuirksFirst THEN Eff ELSE caps
 
 Set(k, v) == [ev |-> "set", m |-> k, v |-> v]
 RECURSIVE Run(_, _)
@@ -35,38 +64,41 @@ Opt(c, s) == IF c THEN s ELSE <<>>
 
 EnterAlt == <<Set(1049, TRUE), Set(25, FALSE)>>
 ExitAlt  == <<Set(25, TRUE), Set(1049, FALSE)>>
-EnableModes ==
-     Opt(UseKitty, <<[ev |-> "kpush", n |-> 1]>>)
-  \o Opt("sixel" \in caps, <<Set(8452, TRUE)>>)
-  \o Opt("ucore" \in caps /\ "xw" \notin caps, <<Set(2027, TRUE)>>)
-  \o Opt("ctheme" \in caps, <<Set(2031, TRUE)>>)
-  \o Opt("ibr" \in caps, <<Set(2048, TRUE)>>)
+EnableModes(c) ==
+     Opt("kitty" \in c /\ ~noKitty, <<[ev |-> "kpush", n |-> 1]>>)
+  \o Opt("sixel" \in c, <<Set(8452, TRUE)>>)
+  \o Opt("ucore" \in c /\ "xw" \notin c, <<Set(2027, TRUE)>>)
+  \o Opt("ctheme" \in c, <<Set(2031, TRUE)>>)
+  \o Opt("ibr" \in c, <<Set(2048, TRUE)>>)
   \o <<Set(2004, TRUE), Set(1, TRUE), [ev |-> "keypad", v |-> TRUE]>>
   \o Opt(~noMouse, <<Set(1002, TRUE), Set(1003, TRUE), Set(1004, TRUE), Set(1006, TRUE)>>)
 Keep(k) == KeepPreset /\ k \in preset
-DisableModes ==
+DisableModes(c) ==
      <<[ev |-> "sgr", ps |-> <<>>], Set(2004, FALSE)>>
-  \o Opt(UseKitty, <<[ev |-> "kpop", n |-> 1]>>)
+  \o Opt("kitty" \in c /\ ~noKitty, <<[ev |-> "kpop", n |-> 1]>>)
   \o <<Set(1, FALSE), [ev |-> "keypad", v |-> FALSE]>>
   \o Opt(~noMouse, <<Set(1002, FALSE), Set(1003, FALSE), Set(1004, FALSE), Set(1006, FALSE)>>)
-  \o Opt("sixel" \in caps, <<Set(8452, FALSE)>>)
-  \o Opt("ucore" \in caps /\ "xw" \notin caps /\ ~Keep(2027), <<Set(2027, FALSE)>>)
-  \o Opt("ctheme" \in caps /\ ~Keep(2031), <<Set(2031, FALSE)>>)
+  \o Opt("sixel" \in c, <<Set(8452, FALSE)>>)
+  \o Opt("ucore" \in c /\ "xw" \notin c /\ ~Keep(2027), <<Set(2027, FALSE)>>)
+  \o Opt("ctheme" \in c /\ ~Keep(2031), <<Set(2031, FALSE)>>)
   \o Opt(A176, <<[ev |-> "appid", id |-> m0.appid]>>)
-  \o Opt("ibr" \in caps, <<Set(2048, FALSE)>>)
+  \o Opt("ibr" \in c, <<Set(2048, FALSE)>>)
   \o <<[ev |-> "pointer", s |-> "text"]>>
-StartUp == EnterAlt \o <<Set(2048, TRUE)>> \o ExitAlt \o EnterAlt \o EnableModes
-SuspendCmds == DisableModes \o ExitAlt \o <<[ev |-> "curs", n |-> shapeUser], Set(25, TRUE)>>
-FrameCmds(shape, ptr) ==
+StartUp == EnterAlt \o <<Set(2048, TRUE)>> \o ExitAlt \o EnterAlt \o EnableModes(StartCaps)
+SuspendCmds == DisableModes(Eff) \o ExitAlt \o <<[ev |-> "curs", n |-> shapeUser], Set(25, TRUE)>>
+(* A frame, in the two halves a shutdown on another goroutine can fall between. *)
+FrameHead(ptr) ==
      Opt("sync" \in caps, <<Set(2026, TRUE)>>)
-  \o <<[ev |-> "pointer", s |-> ptr], [ev |-> "sgr", ps |-> <<<<1>>, <<33>>>>], [ev |-> "osc8", ln |-> 1],
-       [ev |-> "osc8", ln |-> 0], [ev |-> "curs", n |-> shape], Set(25, TRUE), [ev |-> "sgr", ps |-> <<>>]>>
+  \o <<[ev |-> "pointer", s |-> ptr], [ev |-> "sgr", ps |-> <<<<1>>, <<33>>>>], [ev |-> "osc8", ln |-> 1]>>
+FrameTail(shape) ==
+     <<[ev |-> "osc8", ln |-> 0], [ev |-> "curs", n |-> shape], Set(25, TRUE), [ev |-> "sgr", ps |-> <<>>]>>
   \o Opt("sync" \in caps, <<Set(2026, FALSE)>>)
 
 ModeView(t) == [alt |-> t.alt, vis |-> t.vis, keypad |-> t.keypad, set |-> t.set, kitty |-> t.kitty, kittyAlt |-> t.kittyAlt]
 
 Init ==
-  /\ caps \in SUBSET CapNames /\ noMouse \in BOOLEAN /\ noKitty \in BOOLEAN
+  /\ caps \in SUBSET CapNames /\ noMouse \in Opts /\ noKitty \in Opts
+  /\ quirk \in Quirks
   /\ preset \in {{}, {2027, 2031}}
   /\ \E ks \in {<<>>, <<3, 1>>}, sh \in {0, 5} :
        /\ m0 = InitTable(ks, sh, 7, preset \cap Sup)
@@ -74,23 +106,41 @@ Init ==
   /\ m = Run(m0, StartUp) /\ ready = Run(m0, StartUp)
   /\ phase = "running" /\ n = 0
 
-Frame == /\ phase = "running" /\ n < MaxSteps /\ n' = n + 1
-         /\ \E sh \in {1, 6}, p \in {"pointer"} : m' = Run(m, FrameCmds(sh, p))
-         /\ UNCHANGED <<caps, noMouse, noKitty, preset, m0, ready, phase, shapeUser>>
-Suspend == /\ phase = "running" /\ n < MaxSteps /\ n' = n + 1
-           /\ m' = Run(m, SuspendCmds) /\ phase' = "suspended"
-           /\ UNCHANGED <<caps, noMouse, noKitty, preset, m0, ready, shapeUser>>
+FrameBegin == /\ phase = "running" /\ n < MaxSteps /\ n' = n + 1
+              /\ m' = Run(m, FrameHead("pointer")) /\ phase' = "drawing"
+              /\ UNCHANGED cfgvars
+FrameEnd == /\ phase = "drawing" /\ phase' = "running"
+            /\ \E sh \in {1, 6} : m' = Run(m, FrameTail(sh))
+            /\ UNCHANGED <<n>> /\ UNCHANGED cfgvars
+(* Suspend: mark, (terminal round trip), restore. *)
+SuspendBegin == /\ phase = "running" /\ n < MaxSteps /\ n' = n + 1
+                /\ phase' = "suspending"
+                /\ UNCHANGED <<m>> /\ UNCHANGED cfgvars
+SuspendEnd == /\ phase = "suspending"
+              /\ m' = Run(m, SuspendCmds) /\ phase' = "suspended"
+              /\ UNCHANGED <<n>> /\ UNCHANGED cfgvars
 Resume == /\ phase = "suspended" /\ n < MaxSteps /\ n' = n + 1
-          /\ m' = Run(m, EnterAlt \o EnableModes) /\ phase' = "resumed"
-          /\ UNCHANGED <<caps, noMouse, noKitty, preset, m0, ready, shapeUser>>
+          /\ m' = Run(m, EnterAlt \o EnableModes(Eff)) /\ phase' = "resumed"
+          /\ UNCHANGED cfgvars
 Continue == /\ phase = "resumed" /\ phase' = "running"
-            /\ UNCHANGED <<caps, noMouse, noKitty, preset, m, m0, ready, n, shapeUser>>
+            /\ UNCHANGED <<m, n>> /\ UNCHANGED cfgvars
+(* Close by the application, or by the signal path while the application is between its calls. *)
 Close == /\ phase \in {"running", "resumed"}
          /\ m' = Run(m, SuspendCmds) /\ phase' = "closed"
-         /\ UNCHANGED <<caps, noMouse, noKitty, preset, m0, ready, n, shapeUser>>
+         /\ UNCHANGED <<n>> /\ UNCHANGED cfgvars
+CloseSuspended == /\ phase = "suspended" /\ phase' = "closed"       \* nothing of ours is left to undo
+                  /\ UNCHANGED <<m, n>> /\ UNCHANGED cfgvars
+(* The signal path's Close while the application goroutine is inside a frame or inside Suspend. *)
+SigCloseInFrame == /\ phase = "drawing" /\ ~FrameExcl
+                   /\ m' = Run(m, SuspendCmds) /\ phase' = "closed" \* the frame's tail goes to a closed console
+                   /\ UNCHANGED <<n>> /\ UNCHANGED cfgvars
+SigCloseInSuspend == /\ phase = "suspending" /\ ~SerialSuspend
+                     /\ phase' = "closed"                           \* "already suspended": nothing written, console closed
+                     /\ UNCHANGED <<m, n>> /\ UNCHANGED cfgvars
 Close2 == /\ phase = "closed" /\ UNCHANGED vars          \* a second Close writes nothing
 
-Next == Frame \/ Suspend \/ Resume \/ Continue \/ Close \/ Close2
+Next == FrameBegin \/ FrameEnd \/ SuspendBegin \/ SuspendEnd \/ Resume \/ Continue \/ Close \/ CloseSuspended
+        \/ SigCloseInFrame \/ SigCloseInSuspend \/ Close2
 Spec == Init /\ [][Next]_vars
 
 RestoredWhenDown == phase \in {"suspended", "closed"} => Restored(m, m0)
